@@ -6,21 +6,21 @@ TECH = "deterministic simulation with fault injection"
 C = {
  "C01": ("exploration", "4 C01", "seeded simulation: signer and verifier nodes of different instruction-set families (AVX2/SSE2 via the cpu_supports seam, uint64 build) over a loss-free wire; edge-biased keys and message lengths, perturbed heap/stack, forced extreme challenges through the programmable-oracle hook; oracle = sign succeeds at the advertised size and every node and surface accepts",
          "sampled keys/messages; the AVX2/SSE2 split relies on the library's own WITHOUT_BUILTIN_CPU_SUPPORTS fallback; forced challenges rely on the PICNIC_VERIF hook"),
- "C02": ("exploration", "4 C02", "seeded simulation of a faulty wire between signer and verifier: bit flips (also targeted at padding bits and the challenge encoding located by the model's layout), truncation, extension, duplication, splice of two frames, torn write over stale contents, message/signature re-pairing, misrouting to every other parameter set, key and message bit flips; an altered delivery must be rejected and the intact one (also a model-made signature) accepted in the same run; thorough enumerates the complete single-bit neighbourhood of one signature per L1 family",
+ "C02": ("exploration", "4 C02", "seeded simulation of a faulty wire between signer and verifier: bit flips (also targeted at padding bits and the challenge encoding located by the model's layout), truncation, extension, duplication, splice of two frames, torn write over stale contents, message/signature re-pairing, misrouting to every other parameter set, key and message bit flips, well-formed garbage (challenge kept, every other field re-rolled; all-zero signature) and near-miss public keys (a model-made signature for a key whose ciphertext bit is wrong); an altered delivery must be rejected and the intact one (also a model-made signature) accepted in the same run; thorough enumerates the complete single-bit neighbourhood of one signature per L1 family",
          "any accepted altered triple is reported: forging a different valid signature is assumed infeasible, so acceptance can only be verifier laxness"),
  "C03": ("exploration", "4 C03", "seeded simulated histories: the same (key, message) signed at several points of a run (first, after other parameter sets, after failed and faulted calls, other node/surface, perturbed heap and stack) and in sibling builds (uint64, avx2/plain32 Keccak); every signature must equal the independent reference model byte for byte and the solo execution of the same call",
          "the reference model, pinned to the 12 KAT vectors and to hashlib, defines the specification for other inputs"),
  "C04": ("exploration", "4 C04", "the same seeded plan executed on six (build, CPU-capability word) nodes: simd@AVX2, simd@SSE2, uint64, avx2-Keccak, plain32-Keccak@SSE2, plain32+uint64; per-operation result digests (return value, lengths, output bytes) must equal the reference node line by line, on fault-free and wire-faulted operations alike, and the reference model",
          "kernel-level arbitrary-operand equivalence is not claimed; kernels are reached through API paths only"),
- "C05": ("exploration", "4 C05", "seeded hostile deliveries to verifier, importer and opener in ASan/UBSan builds: arbitrary bytes of every length 0..max+64 (strided), field-aware edits, all 256 parameter bytes, malformed NIST frames; every input exact-size against an unmapped page and in a read-only mapping; perturbed heap/stack; oracles: no sanitizer report or signal, const inputs unchanged, return within 4x the honest hash-work budget (Keccak step clock) and a CPU watchdog",
+ "C05": ("exploration", "4 C05", "seeded hostile deliveries to verifier, importer and opener in ASan/UBSan builds: arbitrary bytes of every length 0..max+64 (strided), field-aware edits, well-formed garbage (re-rolled fields, all-zero signatures, LE32(L)||zeros frames around the length window), arbitrary in-memory public keys, all 256 parameter bytes, malformed NIST frames; every input exact-size against an unmapped page and in a read-only mapping; perturbed heap/stack; oracles: no sanitizer report or signal, const inputs unchanged, return within 4x the honest hash-work budget (Keccak step clock) and a CPU watchdog",
          "-fsanitize=alignment excluded (XKCP by design); the step clock only sees hashing work, a loop without hashing is caught by the CPU-time watchdog"),
  "C06": ("exploration", "4 C06", "capacity as a fault: sign and key export with declared capacities 0, 1, header-1, needed-1, needed, needed+1, max-1, max, max+1 and random; the buffer ends at an unmapped page when smaller than the maximum, canaries otherwise; oracle: error below needed, success at max, exact reported length, untouched tail",
          "needed = length of the library's own full-capacity signature of the same input"),
  "C07": ("fault_enumeration", "4 C07", "scripted entropy source behind getrandom: zero/one streams, every unit stream over all consumable bit positions, random streams; every failure point (request 0..3 x error EAGAIN/EINTR/ENOSYS, short reads) through all three API surfaces; oracle is order- and request-count agnostic: sk and pt are disjoint n-bit windows of the delivered bytes, C = model LowMC, pair validates, failure => non-zero return",
          "enumeration is complete over failure points and delivered-bit positions; random streams sampled"),
- "C09": ("exploration", "4 C09", "wire monitor: every signature (hash-derived and forced challenges covering every ZKB++ challenge value and every KKW hidden-party index) is scanned for the byte strings the model knows must stay hidden (unopened seeds, third input share, ancestors of hidden leaves in both seed trees, secret key), must equal the model's construction and must verify",
+ "C09": ("exploration", "4 C09", "wire monitor: every signature (hash-derived and forced challenges covering every ZKB++ challenge value and every KKW hidden-party index) and the whole buffer the call hands back is scanned for the byte strings the model knows must stay hidden (unopened seeds and views, third input share, ancestors of hidden leaves in both seed trees, secret key); the salt is tested against derivations keyed with public values instead of the secret key; the signature must verify",
          "absence is tested by byte-aligned substring search for >=16-byte pseudorandom strings"),
- "C10": ("exploration", "4 C10", "LowMC through sk_to_pk / validate_keypair on AVX2, SSE2 and uint64 nodes and both surfaces with zero, one, every unit, weight-2 and random key/plaintext patterns; oracle = plain LowMC with constants regenerated from the public Grain-LFSR generator; recording variant and inverse matrices are covered through C03 signatures",
+ "C10": ("exploration", "4 C10", "LowMC through sk_to_pk / validate_keypair on AVX2, SSE2 and uint64 nodes and both surfaces with zero, one, every unit, weight-2 and random key/plaintext patterns; bulk operations of 12k/150k evaluations each (6e6 quick, 6e8 thorough) against the model; oracle = plain LowMC with constants regenerated from the public Grain-LFSR generator; recording variant and inverse matrices are covered through model-compared signatures and through the signer's own consistency check at volume",
          "sampled operands; exhaustive comparison of stored constant tables is not a simulation result and is not claimed"),
  "C11": ("fault_enumeration", "4 C11", "simulated key store: export then import with disk faults enumerated completely: all 256 parameter bytes x every buffer length 0..size+2 x both key kinds x both surfaces, every non-zero padding pattern per field, foreign parameter bytes; oracle from the key codec model (accept iff enabled, long enough, padding zero; round trip identity; size/parameter queries = documented constants)",
          "key contents and joint padding patterns are sampled"),
@@ -30,13 +30,13 @@ C = {
          "needs the PICNIC_VERIF hooks; without them degrades to the size table + sampled len <= max and says so"),
  "C14": ("exploration", "4 C14", "stream fragmentation schedules fed to the hashing layer (single and x4 lanes, all update/squeeze helper variants, prefix init) in the opt64, avx2 and plain32 builds, with cuts on and around the sponge rate; oracle = model SHAKE one-shot per lane; thorough enumerates every input length 0..3*rate+1 x every two-way split",
          "uses a shim compiled against the snapshot's kdf_shake.h with the library's own flags"),
- "C15": ("exploration", "4 C15", "2-8 client tasks (real threads, exactly one runnable, parked and released at intercepted allocator/entropy/CPU/Keccak calls) issue mixed API calls on shared read-only keys under PCT-style seeded preemption, perturbed heap (fill + scribble on free) and stack, per-task entropy; oracle: every result equals the solo execution of the same call; secondary non-replayable mode: same plans free-running under ThreadSanitizer",
+ "C15": ("exploration", "4 C15", "2-8 client tasks (real threads, exactly one runnable, parked and released at intercepted allocator/entropy/CPU/Keccak calls) issue mixed API calls on shared read-only keys under PCT-style seeded preemption, perturbed heap (fill + scribble on free) and stack, per-task entropy; oracle: every result equals the execution of the same call alone in a process without call history (pristine solo server); failures that depend on earlier runs of a worker are reproduced as a minimised call history; secondary non-replayable mode: same plans free-running under ThreadSanitizer",
          "interleavings are explored at the granularity of intercepted calls; the TSan mode covers data races between them"),
  "C16": ("exploration", "4 C16", "three kinds of client (generic, per-parameter, NIST-style): same entropy gives the same key through all surfaces, signed message = LE32(len)||msg||sig with sig identical to picnic_sign, open with disjoint/in-place/shifted/inside buffers on intact frames and on truncated, re-prefixed, flipped, extended and arbitrary frames, all against guard pages under ASan",
          "the 12 crypto_sign.c instances are compiled side by side with renamed entry points"),
- "C17": ("exploration", "4 C17", "the same seeded mixed simulation run in every configuration of a lattice over the documented switches, each built by the project's own CMake under ASan/UBSan; digests of enabled parameter sets must equal the full build line by line, all 256 parameter values must be refused where disabled, and a configuration CMake accepts must compile",
+ "C17": ("exploration", "4 C17", "the same seeded mixed simulation (completeness, wire faults, capacity boundary, corrupted key, forced extreme challenge, entropy fault, import/export, NIST framing, heap/stack perturbation) run in every configuration of a lattice over the documented switches (14 quick / 44 thorough, every LowMC instance alone, the largest instances removed one after the other), each built by the project's own CMake under ASan/UBSan; digests of enabled parameter sets must equal the full build line by line, all 256 parameter values must be refused where disabled, and a configuration CMake accepts must compile",
          "a configuration CMake rejects with its own FATAL_ERROR is not a violation"),
- "C18": ("fault_enumeration", "4 C18", "allocation-failure enumeration: the k-th allocation of sign, verify (valid / one flipped bit / truncated) and keygen returns NULL for every k (complete in thorough), sampled double failures; each faulted call runs in a forked child; oracle: success only with a correct result; abnormal termination is counted, not a verdict",
+ "C18": ("fault_enumeration", "4 C18", "allocation-failure enumeration: the k-th allocation of sign, verify (valid / one flipped bit / truncated) and keygen returns NULL for every k (complete in thorough), invalid signatures whose single defect sits in each kind of field in turn, sampled double failures; each faulted call runs in a forked child; oracle: success only with a correct result; abnormal termination is counted, not a verdict",
          "abnormal termination is exempt as the property states"),
 }
 checks = []
